@@ -428,6 +428,25 @@ func (vc *c08Collector) flush(c *vk.Ctx) {
 	vc.m = nil
 }
 
+// c08Key builds the violation key. When the two eq values hash differently
+// the root cause is the hash of the blamed component, whatever operation shows
+// it, so there is one key per layer and blamed component; with identical
+// hashes the map operation that went wrong is part of the key.
+func c08Key(layer, what, blame string) string {
+	if blame == "same-hash" {
+		return layer + "-" + what + ":same-hash"
+	}
+	return layer + "-treats-eq-keys-as-different:" + blame
+}
+
+func c08AddrHashed(kind string) bool {
+	switch kind {
+	case "closure", "ns", "exception", "goFn", "file":
+		return true
+	}
+	return false
+}
+
 func c08Eq(a, b any) bool { return vals.Equal(a, b) || vals.Equal(b, a) }
 
 // c08Blame names the innermost pair of components of a and b that eq reports
@@ -621,10 +640,10 @@ func c08Neighbours(a, b *c08Val, pool []*c08Val) []c08Nb {
 		}
 		n := 0
 		for _, p := range pool {
-			if n >= 4 {
+			if n >= 4 || c08AddrHashed(a.kind) || c08AddrHashed(b.kind) {
 				break
 			}
-			if p.v == nil {
+			if p.v == nil || c08AddrHashed(p.kind) {
 				continue
 			}
 			h := vals.Hash(p.v)
@@ -782,6 +801,8 @@ type c08Pair struct {
 	ib    int
 	rel   string // same-instance / same-value / different-value (by c08Canon)
 	blame string
+	rep   bool // representative of its (described value of a, described value of b) class
+	size  int  // complexity of the pair, for reporting the simplest counterexample
 }
 
 func c08Perms(n int) [][]int {
@@ -809,7 +830,9 @@ func c08Perms(n int) [][]int {
 
 func TestVerifC08(t *testing.T) {
 	vk.Run(t, "C08", "exploration", func(c *vk.Ctx) {
-		maxNb := vk.Pick(c, 3, 4)
+		maxNbRep := vk.Pick(c, 3, 4) // neighbourhood size for representative pairs
+		maxNbAll := vk.Pick(c, 2, 3) // ... and for all other eq pairs
+		maxNb := maxNbRep
 		bulkN := vk.Pick(c, 2000, 2000)
 		bulkPairsAll := c.Thorough()
 		t0 := time.Now()
@@ -818,11 +841,11 @@ func TestVerifC08(t *testing.T) {
 		vc := &c08Collector{}
 
 		c.Rule(fmt.Sprintf("pool of %d differently constructed values (%d elvish expressions evaluated by a real Evaler with the edit: module, the rest built in Go); "+
-			"layer pairs: every ordered pair of the pool; layer nbhd: every ordered pair (a,b) that eq reports equal x every subset of <=%d of the pair's neighbour keys "+
+			"layer pairs: every ordered pair of the pool; layer nbhd: every ordered pair (a,b) that eq reports equal x every subset of <=%d (<=%d for one representative pair per pair of described values) of the pair's neighbour keys "+
 			"(ints whose hash agrees with Hash(a)/Hash(b) on exactly the low 5r bits for r=0..6, an int and two floats with the identical hash, strings agreeing on exactly 5r bits for r=1..3, <=4 pool values sharing >=5 bits) "+
-			"x every insertion order of the subset plus a, smallest subset first; layer bulk: eq pairs x 3 families of other keys x every map size 0..%d grown and shrunk one key at a time, a inserted first and a inserted last; "+
+			"x every insertion order of the subset plus a, smallest subset first; layer bulk: eq pairs (quick: the representative pairs) x 3 families of other keys x every map size 0..%d grown and shrunk one key at a time, a inserted first and a inserted last; "+
 			"layer builtins: every eq pair x every <=1-neighbour map x both insertion orders through the builtins; class = layer/kind(s)/eq relation/hash relation/neighbour kinds and position of a",
-			len(pool), len(c08Exprs), maxNb, bulkN))
+			len(pool), len(c08Exprs), maxNbAll, maxNbRep, bulkN))
 		c.Assume("the premise 'eq reports equal' is vals.Equal as implemented (its own laws are property C09); the documented type-and-value description of each value is used only for coverage facts",
 			"identity values (closures, namespaces, exceptions, builtin functions, files) are covered by the instances of this process only",
 			"maps beyond the enumerated neighbourhoods and the three bulk families (up to 2000 other entries) are not covered")
@@ -862,15 +885,19 @@ func TestVerifC08(t *testing.T) {
 					if ka > kb {
 						ka, kb = kb, ka
 					}
-					vc.add("eq-asymmetric:"+ka+"-vs-"+kb, i+j, fmt.Sprintf("eq %s %s is %v but eq %s %s is %v", a.name, b.name, eab, b.name, a.name, eba))
+					bl := c08Blame(a.v, b.v)
+					if bl == "same-hash" {
+						bl = ka + "-vs-" + kb
+					}
+					vc.add("eq-asymmetric:"+bl, len(a.canon)+len(b.canon), fmt.Sprintf("eq %s %s is %v but eq %s %s is %v", a.name, b.name, eab, b.name, a.name, eba))
 				}
 				sameHash := hashes[i] == hashes[j]
 				if eab || eba {
 					bl := c08Blame(a.v, b.v)
 					if !sameHash {
-						vc.add("hash-differs:"+bl, i+j, fmt.Sprintf("eq %s %s is true but Hash is %#x for the first and %#x for the second", a.name, b.name, hashes[i], hashes[j]))
+						vc.add("hash-differs:"+bl, len(a.canon)+len(b.canon), fmt.Sprintf("eq %s %s is true but Hash is %#x for the first and %#x for the second", a.name, b.name, hashes[i], hashes[j]))
 					}
-					mine = append(mine, c08Pair{a: a, b: b, ia: i, ib: j, rel: rel, blame: bl})
+					mine = append(mine, c08Pair{a: a, b: b, ia: i, ib: j, rel: rel, blame: bl, size: len(a.canon) + len(b.canon)})
 					if rel == "different-value" {
 						mu.Lock()
 						x, y := a.canon, b.canon
@@ -906,6 +933,18 @@ func TestVerifC08(t *testing.T) {
 			}
 			return pairs[x].ib < pairs[y].ib
 		})
+		{
+			first := map[string]int{}
+			for i, p := range pairs {
+				k := p.a.canon + "\x00" + p.b.canon
+				if j, ok := first[k]; !ok || (pairs[j].ia == pairs[j].ib && p.ia != p.ib) {
+					first[k] = i
+				}
+			}
+			for _, i := range first {
+				pairs[i].rep = true
+			}
+		}
 		vc.flush(c)
 		fmt.Printf("INFO c08 layer pairs done: %d eq ordered pairs, %v\n", len(pairs), time.Since(t0))
 		var dce []string
@@ -936,6 +975,10 @@ func TestVerifC08(t *testing.T) {
 			p := pairs[pi]
 			nbs := c08Neighbours(p.a, p.b, pool)
 			a, b := p.a.v, p.b.v
+			maxNb := maxNbAll
+			if p.rep {
+				maxNb = maxNbRep
+			}
 			prefix := "nbhd/" + p.a.kind + "/" + p.rel + "/" + p.blame + "/"
 			var cnt int64
 			sub := make([]int, 0, maxNb)
@@ -963,9 +1006,9 @@ func TestVerifC08(t *testing.T) {
 					}
 					var what, msg string
 					if pn := vk.Try(func() { what, msg = c08Probe(m, seq, a, b) }); pn != "" {
-						vc.add("panic:map:"+vk.PanicSite(pn), k*1000, fmt.Sprintf("map %s probed with %s panicked: %s", c08MapDesc(seq), p.b.name, pn))
+						vc.add("panic:map:"+vk.PanicSite(pn), p.size*10+k, fmt.Sprintf("map %s probed with %s panicked: %s", c08MapDesc(seq), p.b.name, pn))
 					} else if what != "" {
-						vc.add("map-"+what+":"+p.blame, k*1000+pi, fmt.Sprintf("a=%s b=%s (eq; Hash %#x / %#x): %s", p.a.name, p.b.name, vals.Hash(a), vals.Hash(b), msg))
+						vc.add(c08Key("map", what, p.blame), p.size*10+k, fmt.Sprintf("a=%s b=%s (eq; Hash %#x / %#x): %s", p.a.name, p.b.name, vals.Hash(a), vals.Hash(b), msg))
 					}
 					l.Case(prefix + tagStr + "/" + strconv.Itoa(posA))
 					cnt++
@@ -996,7 +1039,7 @@ func TestVerifC08(t *testing.T) {
 		// chunk of Hash(a); strings "k<i>". Keys eq to a or b are skipped.
 		var bulkPairs []c08Pair
 		for _, p := range pairs {
-			if bulkPairsAll || p.ia != p.ib || p.ia%4 == 0 {
+			if bulkPairsAll || p.rep {
 				bulkPairs = append(bulkPairs, p)
 			}
 		}
@@ -1069,7 +1112,7 @@ func TestVerifC08(t *testing.T) {
 					}
 				}
 				if what != "" {
-					vc.add("map-"+what+":"+p.blame, 100000+size, fmt.Sprintf("a=%s b=%s (eq; Hash %#x / %#x), %s, map of a plus %d keys of family %s: %s", p.a.name, p.b.name, vals.Hash(a), vals.Hash(b), phase, size, famName, msg))
+					vc.add(c08Key("map", what, p.blame), 1000000+p.size*10000+size, fmt.Sprintf("a=%s b=%s (eq; Hash %#x / %#x), %s, map of a plus %d keys of family %s: %s", p.a.name, p.b.name, vals.Hash(a), vals.Hash(b), phase, size, famName, msg))
 				}
 				l.Case(fmt.Sprintf("bulk/%s/%s/%s/%s/log2size=%d", p.a.kind, p.blame, famName, phase, c08Log2(size)))
 			}
@@ -1152,15 +1195,16 @@ func TestVerifC08(t *testing.T) {
 					desc := fmt.Sprintf("a=%s b=%s (eq; Hash %#x / %#x), m=%s, n=m without a", p.a.name, p.b.name, vals.Hash(p.a.v), vals.Hash(p.b.v), c08MapDesc(seq))
 					for i := range want {
 						if i >= len(out) {
-							vc.add("builtin-"+c08Slug(names[i])+":"+p.blame, size*1000+pi, fmt.Sprintf("%s: `%s` gave no value (%s)", desc, names[i], err))
+							vc.add(c08Key("builtin", c08Slug(names[i]), p.blame), p.size*10+size, fmt.Sprintf("%s: `%s` gave no value (%s)", desc, names[i], err))
 							break
 						}
 						if out[i] != want[i] {
-							vc.add("builtin-"+c08Slug(names[i])+":"+p.blame, size*1000+pi, fmt.Sprintf("%s: `%s` is %v, want %v", desc, names[i], out[i], want[i]))
+							vc.add(c08Key("builtin", c08Slug(names[i]), p.blame), p.size*10+size, fmt.Sprintf("%s: `%s` is %v, want %v", desc, names[i], out[i], want[i]))
+							break
 						}
 					}
 					if err != "" && len(out) >= len(want) {
-						vc.add("builtin-error:"+p.blame, size*1000+pi, fmt.Sprintf("%s: %s", desc, err))
+						vc.add(c08Key("builtin", "error", p.blame), p.size*10+size, fmt.Sprintf("%s: %s", desc, err))
 					}
 					l.Case(fmt.Sprintf("builtins/%s/%s/%s/%s/%d", p.a.kind, p.rel, p.blame, tag, order))
 					cnt++
